@@ -796,6 +796,19 @@ impl Machine {
         self.data.as_ref().unwrap()
     }
 
+    /// The numbered line execution stands on (None once the program has ended).
+    pub fn peek_line(&mut self) -> Option<u64> {
+        if let Some((_, _, line)) = &self.pending_input {
+            return Some(*line);
+        }
+        self.pos = self.norm(self.pos.clone());
+        match &self.pos {
+            Pos::At(l, _) => Some(*l),
+            Pos::ElseSkip(l) => Some(*l),
+            Pos::Ended => None,
+        }
+    }
+
     /// Executes the statement at the current position. `reply`: text available for an INPUT.
     pub fn step(&mut self, reply: Option<&str>) -> Step {
         if let Some((l, cont, line)) = self.pending_input.clone() {
